@@ -13,7 +13,7 @@ import traceback
 
 VERIF = os.path.dirname(os.path.dirname(os.path.abspath(__file__)))
 CONTRACT_MODULES = ['lexer', 'codegen_base', 'parser_actions', 'intermediate', 'symtable', 'compiler',
-                    'writers', 'searchers', 'borrowers', 'factories', 'codegen_render', 'readers', 'jsonindex', 'pysnmp_adapt', 'scripts']
+                    'imports', 'writers', 'searchers', 'borrowers', 'factories', 'codegen_render', 'readers', 'jsonindex', 'pysnmp_adapt', 'scripts']
 
 
 def load_contracts():
@@ -197,6 +197,8 @@ def main(argv=None):
     tier = os.environ.get('VERIF_TIER') or a.tier
     seed = int(os.environ.get('VERIF_SEED', '0') or 0)
     sys.path.insert(0, VERIF)
+    if a.only:
+        os.environ['VERIF_ONLY'] = '1'
     if a.replay:
         from .report import run_replay
         return run_replay(a.replay)
